@@ -289,6 +289,35 @@ func runC14(c *Ctx) {
 		}
 		lks = append(lks, lkInfo{ifi, found, PathOf(lk.X).HasField(s.FProject), lk})
 	}
+	if ex := EarlyLoopExits(p, diffFn, true); diffFn != upd || true {
+		// only the loops of the classification (the action loops legitimately continue after an error)
+		var exScan []string
+		for _, lp := range NaturalLoops(diffFn) {
+			scans := false
+			for b := range lp.Blocks {
+				for _, in := range b.Instrs {
+					if lk, ok := in.(*ssa.Lookup); ok && lk.CommaOk && PathOf(lk.X).LastField() == s.FProcesses {
+						scans = true
+					}
+				}
+			}
+			if !scans {
+				continue
+			}
+			for b := range lp.Blocks {
+				if b == lp.Header {
+					continue
+				}
+				for _, sc := range b.Succs {
+					if !lp.Blocks[sc] {
+						exScan = append(exScan, posOfBlock(p, b))
+					}
+				}
+			}
+		}
+		_ = ex
+		c.Check(len(exScan) == 0, r3, "scans-exhaustive", FirstPos(p, diffFn), "both scans examine every process", "a scan of the update is left early ("+strings.Join(exScan, ", ")+"), e.g. at the first unchanged process: the processes after it are neither added, updated nor removed")
+	}
 	c.Check(len(lks) == 2, r3, "lookups", FirstPos(p, upd), "two membership tests", fmt.Sprintf("expected one membership test in each direction, found %d", len(lks)))
 	// both scans run unconditionally: every path from the entry to a return passes both iterations
 	for _, dir := range []struct {
